@@ -76,6 +76,7 @@ type PathSegment struct {
 	Branches []*PathSegment
 	Tag      any
 	size     size.Size
+	detached bool
 }
 
 func NewRootPathSegment(root *Node) *PathSegment {
@@ -209,6 +210,11 @@ func (s *PathSegment) Search(delegate func(nextSegment *PathSegment) bool) *Node
 }
 
 func (s *PathSegment) Detach() {
+	// A segment that was detached before is no longer accounted for by its trunk
+	if s.detached {
+		return
+	}
+
 	var (
 		sizeDetached = s.SizeOf()
 	)
@@ -223,9 +229,17 @@ func (s *PathSegment) Detach() {
 		}
 	}
 
-	// Update size of the path tree now that this segment has been detached
-	for sizeCursor := s; sizeCursor != nil; sizeCursor = sizeCursor.Trunk {
+	s.detached = true
+
+	// Update size of the path tree now that this segment has been detached. The detached segment keeps the size of
+	// what still hangs below it and the walk stops at the first trunk that was itself detached: the segments above
+	// it gave up this part of the tree when it was detached.
+	for sizeCursor := s.Trunk; sizeCursor != nil; sizeCursor = sizeCursor.Trunk {
 		sizeCursor.size -= sizeDetached
+
+		if sizeCursor.detached {
+			break
+		}
 	}
 }
 
@@ -253,9 +267,13 @@ func (s *PathSegment) Descend(node *Node, relationship *Relationship) *PathSegme
 		sizeAdded += size.Of(s.Branches) * size.Size(capacityAdded)
 	}
 
-	// Track size on the root segment of this path tree
+	// Track size on the root segment of this path tree. A detached trunk is the root of what hangs below it.
 	for sizeCursor := s; sizeCursor != nil; sizeCursor = sizeCursor.Trunk {
 		sizeCursor.size += sizeAdded
+
+		if sizeCursor.detached {
+			break
+		}
 	}
 
 	return nextSegment
